@@ -7,7 +7,7 @@ import numpy as np
 from .. import coqio as cq
 from .. import gen
 from .. import gmmtrain as gt
-from ..impl import hexlist
+from ..impl import LogCounter, da, hexlist
 
 SWITCHES = list(itertools.product([True, False], repeat=3))
 
@@ -121,6 +121,48 @@ def run(chk):
                 if cnl["steps"] != 2:
                     chk.fail("no iteration limit, threshold above every relative change: expected to stop at iteration 2, stopped at %d" % cnl["steps"],
                              dict(ctx, threshold=th, cvs=ctraj["cvs"]))
+    # ---- continued training: a second fit() of the same object obeys the same rule as a fresh machine with the same parameters
+    #      (the test is never made at the first iteration of a call; nothing of the previous call's history enters it);
+    #      and Dask input whose row-chunk sizes are unknown (boolean-mask filtering) trains like the same rows in memory
+    for j in range(6 if chk.tier == "quick" else 60):
+        w, mu, var, s, X = gt.gen_training(r, C=2, N=r.choice([14, 25]), scale="unit")
+        C, D = mu.shape
+        sw = (True, bool(j % 2), True)
+        cfg1 = dict(w=w, mu=mu, var=var, thr=None, sw=sw, eps=eps, cap=2, cthr=None)
+        first, _ = gt.build_machine(cfg1)
+        gt.run_fit(first, X)
+        if not gt.well_conditioned(first, X):
+            continue
+        th = r.choice([0.5, 1e-2, 1e-6])
+        first.max_fitting_steps, first.convergence_threshold = 6, th
+        fresh, _ = gt.build_machine(dict(cfg1, w=np.array(first.weights), mu=np.array(first.means), var=np.array(first.variances), cap=6, cthr=th))
+        n_again, L_again, _ = gt.run_fit(first, X)
+        n_fresh, L_fresh, _ = gt.run_fit(fresh, X)
+        chk.count(1, key=("second-fit", th))
+        if not (n_again == n_fresh and np.allclose(L_again, L_fresh, rtol=1e-12, atol=1e-12) and np.allclose(first.means, fresh.means, rtol=1e-12, atol=1e-12)):
+            chk.fail("a second fit() of the same machine (threshold %g) ran %d iterations, a fresh machine with the same parameters and settings %d (reported %s vs %s)"
+                     % (th, n_again, n_fresh, L_again, L_fresh),
+                     {"X": hexlist(X), "shape": [C, D], "w": hexlist(w), "mu": hexlist(mu), "var": hexlist(var), "switches(means,vars,weights)": list(sw), "threshold": th})
+        # unknown chunk sizes
+        keep = np.ones(len(X), dtype=bool)
+        keep[r.sample(range(len(X)), 3)] = False
+        half = len(X) // 2
+        dX = da.concatenate([da.from_array(X[:half], chunks=(half, D)), da.from_array(X[half:], chunks=(len(X) - half, D))[da.from_array(keep[half:], chunks=len(X) - half)]])
+        Xkept = np.concatenate([X[:half], X[half:][keep[half:]]])
+        ma, _ = gt.build_machine(dict(cfg1, cap=3))
+        mb, _ = gt.build_machine(dict(cfg1, cap=3))
+        try:
+            with LogCounter("bob.learn.em.gmm") as lc:
+                ma.fit(dX)
+            La = [float(x.split("=")[1]) for x in lc.records if x.startswith("log likelihood = ")]
+        except Exception as e:
+            chk.fail("fit on a Dask array with unknown row-chunk sizes raises %r" % (e,), {"X": hexlist(X), "kept_rows": keep.tolist(), "shape": [C, D]})
+            continue
+        nb, Lb, _ = gt.run_fit(mb, Xkept)
+        chk.count(1, key=("unknown-chunk-sizes",))
+        if gt.well_conditioned(mb, Xkept) and not (np.allclose(La, Lb, rtol=1e-9, atol=1e-9) and np.allclose(ma.means, mb.means, rtol=1e-8, atol=1e-10)):
+            chk.fail("training on a Dask array with unknown row-chunk sizes differs from training on the same rows in memory (reported %s vs %s)" % (La, Lb),
+                     {"X": hexlist(X), "kept_rows": keep.tolist(), "shape": [C, D], "w": hexlist(w), "mu": hexlist(mu), "var": hexlist(var)})
     # ---- other storage types of the training values (single precision with a common offset, narrow integers): training sees the VALUES;
     #      the run is the same as on the float64 copy, and in particular every iteration still raises the likelihood
     for j in range(8 if chk.tier == "quick" else 160):
